@@ -34,6 +34,13 @@ pub fn special_texts() -> Vec<String> {
         "_1_000".into(), "$_1_000".into(), "x_start".into(), "start_".into(), "$x_enum".into(), "$enum_".into(), "structenum".into(), "_terminal".into(), "terminal_".into(), "r#type".into(),
         "_ _".into(), "__".into(), "$__".into(), "_0".into(), "$_0".into(), "a$b".into(), "$a$b".into(), "a#b".into(), "a/b".into(), "a//b".into(), "$a//b".into(), "::a//".into(),
     ];
+    for (_, _, pre) in crate::hashtwins::KEYWORD_PREIMAGES {
+        for n in pre.iter() {
+            v.push(n.to_string());
+            v.push(format!("${n}"));
+            v.push(format!("{n} S struct S"));
+        }
+    }
     // the shape of the generator's own output header in front of a grammar
     v.push("// x\n// @sha256 e3b0c44298fc1c149afbf4c8996fb92427ae41e4649b934ca495991b7852b855\nstart S\nstruct S\nterminal T {}\n".to_string());
     v.push("// @sha256 E3B0C44298FC1C149AFBF4C8996FB92427AE41E4649B934CA495991B7852B855\r\nstart S".to_string());
@@ -92,10 +99,22 @@ pub fn token_text(k: K, rng: &mut Rng) -> String {
             1 => format!("#[derive({})]", (0..n / 8 + 1).map(|i| format!("Trait{i:03}")).collect::<Vec<_>>().join(", ")),
             _ => format!("#[{}{}]", "(".repeat(n / 2), ")".repeat(n / 2)),
         },
+        // (identifiers whose hash - under one of a dozen common string hashes - equals a reserved word's)
+        (K::Ident, None) if rng.below(40) == 0 => preimage_ident(rng),
+        (K::TerminalIdent, None) if rng.below(40) == 0 => format!("${}", preimage_ident(rng)),
         (K::Ident, None) => rng.pick(IDENTS).to_string(),
         (K::TerminalIdent, None) => rng.pick(TIDENTS).to_string(),
         (K::Attr, None) => rng.pick(ATTRS).to_string(),
         (other, _) => other.fixed_text().unwrap().to_string(),
+    }
+}
+
+fn preimage_ident(rng: &mut Rng) -> String {
+    loop {
+        let (_, _, v) = rng.pick(crate::hashtwins::KEYWORD_PREIMAGES);
+        if !v.is_empty() {
+            return rng.pick_str(v).to_string();
+        }
     }
 }
 
